@@ -69,6 +69,7 @@ def determinism(n, workers_a, workers_b, fresh_n):
             print("  fresh interpreters: %d seeds, %d mismatches" % (fresh_n, fm))
         bad += fm
     bad += determinism_threads(max(60, n // 5), workers_a, workers_b)
+    bad += determinism_lines(workers_a, workers_b)
     return 0 if bad == 0 else 2
 
 
@@ -107,6 +108,33 @@ def determinism_threads(n, workers_a, workers_b):
     for i in mism[:5]:
         print("  MISMATCH threads program #%d: %s vs %s" % (i, a.get(i), b.get(i)))
     return len(mism) + (1 if any(k != "ok" for k in st) else 0)
+
+
+def determinism_lines(workers_a, workers_b):
+    """Line-level crash-point enumeration: the same programs in two sets of zygotes (other PYTHONHASHSEED): number of line events of
+    the twin, distinct lines, interrupts delivered and the status must agree -- a line count that depended on the environment
+    would make `x = {interrupt: e}` replays land elsewhere."""
+    from . import program18 as P18
+    t = time.time()
+    jobs = ([dict(p, prop="C17") for p in P.crash_programs_c17(0)[:4]]
+            + [dict(p, prop="C18") for p in P18.line_crash_programs_c18("quick") if p["name"].startswith(("products_after_abort_sl", "solve_cg", "flatten_unary"))][:6])
+
+    def digests(workers, hs):
+        out = {}
+        with Pool(workers, (hs, )) as pool:
+            pool.run(({"id": i, "kind": "crashenum", "mode": "lines", "cap": 15, "program": p["program"], "target": p["target"],
+                       "deadline": 300} for i, p in enumerate(jobs)),
+                     lambda j, r: out.__setitem__(j["id"], (r.get("status"), r.get("nlines"), r.get("distinct_lines"), r.get("enumerated"),
+                                                            r.get("raised"))))
+        return out
+
+    a, b = digests(workers_a, "1"), digests(workers_b, "77")
+    mism = [i for i in range(len(jobs)) if a.get(i) != b.get(i)]
+    print("determinism line-level crash points: %d programs x 2 (PYTHONHASHSEED 1/77): %d mismatches; %d interrupts; %.0fs"
+          % (len(jobs), len(mism), sum((v[4] or 0) for v in a.values()), time.time() - t))
+    for i in mism[:5]:
+        print("  MISMATCH line program #%d (%s): %s vs %s" % (i, jobs[i].get("name"), a.get(i), b.get(i)))
+    return len(mism) + (1 if any(v[0] != "ok" for v in a.values()) else 0)
 
 
 def scratch_copy():
